@@ -192,7 +192,9 @@ class BundleContainer(object):
         ''' Assign unique block numbers where needed.
         '''
         for blk in self.bundle.getfieldval('blocks'):
-            self._fix_blk_num(blk)
+            blk_num = self._fix_blk_num(blk)
+            # a block which just got its number can be looked up by it
+            self._block_num.setdefault(blk_num, blk)
 
     def _fix_blk_num(self, blk: CanonicalBlock) -> None:
         blk_num = blk.getfieldval('block_num')
